@@ -15,6 +15,9 @@ import (
 type world struct {
 	logs  []*logT // A, B configured; K configured under a key string that is not base64; U not configured
 	trees []*tree // T0 honest, F1 forks late, F2 forks early, F3 unrelated
+	// roots the harness itself built by hashing a node preimage that is not 0x01 || 32 bytes || 32 bytes
+	// (directly or further down the chain): not the root of any RFC 6962 tree.  root -> how it was built
+	nonTree map[string]string
 }
 
 func (h *harness) newWorld() *world {
@@ -193,8 +196,30 @@ func (o *oracle) afterUpdate(u, g step, ri *rawInfo) {
 					}
 				}
 			}
+			// a root that is not a tree root is neither an extension of anything nor extensible
+			if before.p.Size > 0 && after.Size > before.p.Size {
+				why, bad := o.w.nonTree[string(after.Root)]
+				side := "new"
+				if !bad {
+					why, bad = o.w.nonTree[string(before.p.Root)]
+					side = "held"
+				}
+				if bad {
+					o.tags["finding:C19-1:non-tree-root-chained"] = true
+					if o.strict {
+						o.fail("held (%d,%x) replaced by (%d,%x) which is not a genuine extension: the %s root is %s: %s", before.p.Size, before.p.Root[:4], after.Size, after.Root[:4], side, why, u.op.desc)
+					}
+				}
+			}
 		}
 		o.held[l.id] = &heldT{p: *after, raw: u.op.raw}
+	}
+	// a candidate the generator knows not to be a genuine extension of what is held
+	if u.op.mustRefuse != "" && before != nil && u.obs.class == "EOk" {
+		o.tags["finding:C19-1:non-tree-root-chained"] = true
+		if o.strict {
+			o.fail("accepted a successor that is not a genuine extension (%s): %s", u.op.mustRefuse, u.op.desc)
+		}
 	}
 }
 
